@@ -75,3 +75,23 @@ Section Sorted.
     - destruct (String.eqb k (key y)); [reflexivity | exact IH].
   Qed.
 End Sorted.
+
+(* ---------- strings ---------- *)
+Lemma list_of_append a b :
+  list_ascii_of_string (a ++ b) = (list_ascii_of_string a ++ list_ascii_of_string b)%list.
+Proof. induction a as [|c r IH]; cbn; [reflexivity | rewrite IH; reflexivity]. Qed.
+
+Lemma list_ascii_inj a b : list_ascii_of_string a = list_ascii_of_string b -> a = b.
+Proof. intros H. rewrite <- (string_of_list_ascii_of_string a), <- (string_of_list_ascii_of_string b), H. reflexivity. Qed.
+
+Lemma append_inv_head a x y : (a ++ x = a ++ y)%string -> x = y.
+Proof. induction a as [|c r IH]; cbn; intros H; [exact H | inversion H; auto]. Qed.
+
+Lemma append_inv_tail b x y : (x ++ b = y ++ b)%string -> x = y.
+Proof.
+  intros H. apply list_ascii_inj. apply (f_equal list_ascii_of_string) in H.
+  rewrite !list_of_append in H. eapply app_inv_tail; eauto.
+Qed.
+
+Lemma wrap_inj a b x y : (a ++ x ++ b = a ++ y ++ b)%string -> x = y.
+Proof. intros H. apply append_inv_head in H. eapply append_inv_tail; eauto. Qed.
